@@ -321,6 +321,7 @@ pub fn w_schema() -> Schema {
                     at("labels", Ty::Set(Box::new(Ty::Str)), true),
                     at("meta", Ty::Rec(vec![at("pub", Ty::Bool, true), at("rev", Ty::Long, false), at("col", Ty::Ent("Color".into()), false)]), true),
                     at("ip", Ty::Ext("ipaddr"), false),
+                    at("eds", Ty::Set(Box::new(Ty::Ent("User".into()))), false),
                 ],
                 tags: Some(Ty::Long),
                 enum_ids: None,
@@ -373,6 +374,8 @@ pub fn w_stores(tier: Tier) -> Vec<Store> {
                                         if a_nick {
                                             e.attrs.insert("nick".into(), Val::Str("al".into()));
                                             e.attrs.insert("k y".into(), Val::Bool(true));
+                                            // an empty Set<Color> (inhabits every set type)
+                                            e.attrs.insert("cols".into(), Val::set(vec![]));
                                         }
                                         match a_mgr {
                                             1 => {
@@ -413,6 +416,8 @@ pub fn w_stores(tier: Tier) -> Vec<Store> {
                                         meta.insert("pub".to_string(), Val::Bool(d_variant & 1 == 0));
                                         if d_variant & 1 != 0 {
                                             meta.insert("rev".to_string(), Val::Long(7));
+                                            // Set<User>: empty when ip is absent, [a] otherwise
+                                            e.attrs.insert("eds".into(), if d_variant & 2 != 0 { Val::set(vec![Val::Uid(ua())]) } else { Val::set(vec![]) });
                                         }
                                         e.attrs.insert("meta".into(), Val::Rec(meta));
                                         if d_variant & 2 != 0 {
